@@ -964,6 +964,8 @@ def oracle_c13_visible(tables, seed, tier, deep):
     for i, nm in enumerate(simple):
         other = simple[(i * 5 + 1) % len(simple)]
         for keys in ([nm, nm + "Id"], [nm + "Id", nm], [nm, nm + ".tags"], [nm + ".tags", nm, "x" + nm], [nm, other, nm + other], [nm, "a" + nm + "z", other]):
+            if len(set(keys)) != len(keys):
+                continue          # (duplicate sibling keys collapse at parse time; not what is tested here)
             for rp in repls[:2] if i % 2 else repls[2:]:
                 summ = "IXSCAN { " + ", ".join("%s: %s" % (k, ["1", "-1"][j % 2]) for j, k in enumerate(keys)) + " }"
                 line = Obj([("c", "COMMAND"), ("msg", "Slow query"), ("attr", Obj([("ns", "d." + nm), ("command", Obj([("find", nm), ("filter", Obj([(k, Num("1")) for k in keys])), ("$db", "d")])),
